@@ -225,7 +225,8 @@ def check(prog: Program, tier: str) -> Result:
               "scheduled rewrites honour `# pyrefact: ignore` only because the scheduler refuses a transaction when ANY of its ranges touches an annotated line")
     res.adopt(_c03.check(prog, tier), {"R3.2"}, "R20.7",
               "a `# pyrefact: skip_file` file stays byte-identical only if the file entry points write nothing when the text is unchanged (text-mode reading normalises line ends)")
-    res.floors.update({"R20.1": 10, "R20.2": 1, "R20.3": 6, "R20.5": 3, "R20.6": 1, "R20.7": 1})
+    _r20_8(prog, res)
+    res.floors.update({"R20.8": 1, "R20.1": 10, "R20.2": 1, "R20.3": 6, "R20.5": 3, "R20.6": 1, "R20.7": 1})
     return res
 
 
@@ -401,6 +402,36 @@ def _r20_2(prog: Program, res: Result) -> None:
     else:
         res.ok("R20.2", whole[1], "main.format_code", "skip-file grammar",
                f"whole-file pattern accepts a superset of the per-line skip_file grammar (extra: {sep[:2]})")
+
+
+def _r20_8(prog: Program, res: Result) -> None:
+    """What format_code returns for a skipped (or any) text is what must reach the sink.  `print(text)` appends a line break of
+    its own: in --from-stdin mode a skip_file input is never echoed unchanged.  Instance: every statement that writes the result
+    of format_code to a stream in the entry points; obligation: print(.., end="") or a write() call."""
+    from ..defuse import bindings
+    n = 0
+    for fn in prog.funcs.values():
+        if fn.mod.name != "main":
+            continue
+        results = set()
+        for nm, defs in bindings(fn).items():
+            for _s, v in defs:
+                if isinstance(v, ast.Call):
+                    r = prog.resolve_call(v.func, fn.mod, fn)
+                    if r and r[0] == "fn" and r[1].key == ("main", "format_code"):
+                        results.add(nm)
+        for c in walk_own(fn.node):
+            if isinstance(c, ast.Call) and isinstance(c.func, ast.Name) and c.func.id == "print" and c.args and isinstance(c.args[0], ast.Name) and c.args[0].id in results:
+                n += 1
+                end = next((k.value for k in c.keywords if k.arg == "end"), None)
+                ok = isinstance(end, ast.Constant) and end.value == ""
+                res.decide(ok, "R20.8", fn.loc(c), fn.fq, short(c, 60), "the text is written as returned" if ok else
+                           "print() appends a line break to the text format_code returned: a skip_file input piped through --from-stdin comes out changed")
+            if isinstance(c, ast.Call) and isinstance(c.func, ast.Attribute) and c.func.attr == "write" and c.args and isinstance(c.args[0], ast.Name) and c.args[0].id in results:
+                n += 1
+                res.ok("R20.8", fn.loc(c), fn.fq, short(c, 60), "the text is written as returned")
+    if n == 0:
+        raise AnalysisError("R20.8: no statement writing the result of format_code found")
 
 
 def _r20_5(prog: Program, res: Result) -> None:
@@ -721,6 +752,8 @@ def _whitespace_only(prog, fn, pa, node, bounds: set) -> bool:
 from ..selftest import Variant  # noqa: E402
 
 VARIANTS = [
+    Variant("stdin-result-printed-with-a-line-break", "FIRE", "main", "        print(source, end=\"\")  # The text as it is, print would add a line break", "        print(source)", "R20.8"),
+    Variant("stdin-result-written-to-stdout", "SILENT", "main", "        print(source, end=\"\")  # The text as it is, print would add a line break", "        sys.stdout.write(source)"),
     Variant("ignore-lines-by-str-splitlines", "FIRE", "core", "    for line in split_lines(source):  # A form feed in a string does not end the line, or its comment", "    for line in source.splitlines(keepends=True):", "R20.5"),
     Variant("directive-lookup-in-a-helper", "SILENT", "core", 'def has_ignore_comment(source: str, rng: Range) -> bool:\n    pattern = re.compile(r"#\\s*pyrefact\\s*:\\s*(skip_file|ignore)")\n', '_DIRECTIVE = re.compile(r"#\\s*pyrefact\\s*:\\s*(skip_file|ignore)")\n\n\ndef get_directive(text: str):\n    found = _DIRECTIVE.search(text)\n    if found is None:\n        return None\n\n    return found.group(1)\n\n\ndef has_ignore_comment(source: str, rng: Range) -> bool:\n', extra=[("core", '        if rng & Range(line_start, line_end) and pattern.search(line):', '        if rng & Range(line_start, line_end) and get_directive(line) is not None:')]),
     Variant("skip-test-per-line-through-helper", "SILENT", "main", "    if re.search(r\"#\\s*pyrefact\\s*:\\s*skip_file\", source):",
